@@ -180,6 +180,18 @@ class SpecMixin:
             key = a[0].value
             es = [e for e in st.trace if e.name == "loop:" + key or e.name.startswith("loop:" + key + "#")]
             return B(z3.Or(*[e.g() for e in es]) if es else z3.BoolVal(False))
+        if f == "effect_arg_nth":   # effect_arg_nth('name', n, idx): idx-th argument of the n-th occurrence (0-based) on this path
+            name, nth, idx = a[0].value, a[1].value, a[2].value
+            es = [e for e in st.trace if e.name == name]
+            if nth >= len(es) or idx >= len(es[nth].args):
+                return [Res(st, V(fresh_val("noarg"), None))]
+            return [Res(st, es[nth].args[idx])]
+        if f == "getattr_dyn":
+            fn = z3.Function("getattr_dyn", Val, z3.StringSort(), Val)
+            return [Res(st, V(fn(v(a[0]).t, vs(v(a[1]).t)), None))]
+        if f == "py_equal":
+            fn = z3.Function("py_equal", Val, Val, z3.BoolSort())
+            return B(fn(v(a[0]).t, v(a[1]).t))
         if f == "effect_with_arg":  # some occurrence of the effect has `value` as its idx-th argument
             name, idx = a[0].value, a[1].value
             x = v(a[2])
